@@ -872,6 +872,15 @@ def suite_ser(g, scale):
             g.emit("rd64 %s %s %s%s" % (y, entry, x, r.choice(["", " extra=3"])))
             g.emit("eq64 %s %s" % (y, x))
         g.count("ser64:manybuckets")
+    # 1d. ONE bucket spanning more than 16384 chunks (its inner header exceeds 64 KiB): round trips and truncations inside that header
+    x = g.fresh("m")
+    g.emit("new64 %s" % x)
+    g.emit("addstride64 %s %d 65536 %d" % (x, (r.choice([0, 0xB3C50007, 0xFFFFFFFF]) << 32) + 77, r.choice([16385, 20011])))
+    g.emit("ser64 %s" % x)
+    for entry in ENTRIES:
+        g.emit("rd64 %s %s %s" % (g.fresh("d"), entry, x))
+        g.emit("trunc64 %s %s" % (x, entry))
+    g.count("ser64:widebucket")
     # 2. small streams: spec reading of the bytes, truncation sweep, header corruption
     for _ in range(int(10 * scale)):
         x = g.fresh("s")
